@@ -524,8 +524,21 @@ def selftest() -> int:
         first(b3, "TABLE")["attrs"].append({"n": "zz", "v": "1"})
         variants.append(("extra attribute", b3))
         _, bad = trace_items([], tags_file, [(i, page, t) for i, (_, t) in enumerate(variants)])
+        # a recorded history on one page: the second parse() given the tree of the first one (what a
+        # shared cookie produces) must be rejected, its own tree accepted
+        p1 = [{"k": "T", "args": [[T("t")], [T("a1")]]}]
+        p2 = [{"k": "T", "args": [[T("t")], [T("a1", "NL")]]}]
+        ctx = ptree2.new_ctx(d, "h")
+        ctx.start_page("Pg")
+        t1 = ptree2.node(ctx.parse("{{t|a1}}"))
+        t2 = ptree2.node(ctx.parse("{{t|a1\n}}"))
+        ctx.db_conn.close()
+        _, hbad = trace_items([], tags_file, [(0, p1, t1), (1, p2, t2), (2, p2, t1)])
     badidx = set(bad)
     print("text:", repr(text))
     for i, (name, _) in enumerate(variants):
         print(f"  {name}: {'rejected' if i in badidx else 'accepted'}")
-    return 0 if badidx == {1, 2, 3} else 1
+    print("history: parse('{{t|a1}}'); parse('{{t|a1\\n}}') on one page")
+    for i, name in enumerate(["first parse, own tree", "second parse, own tree", "second parse with the tree of the first"]):
+        print(f"  {name}: {'rejected' if i in hbad else 'accepted'}")
+    return 0 if badidx == {1, 2, 3} and set(hbad) == {2} else 1
